@@ -1696,6 +1696,7 @@ func propC07(r *Run) {
 	}
 	c.timeOracle()
 	c.timeFamilies()
+	c.quotedEmptyPrefix()
 	for _, cf := range corpus {
 		c.mutateFile(cf, quick)
 	}
